@@ -9,7 +9,7 @@
    point of /repo, compared with the effect log of the model). *)
 From Coq Require Import List ZArith String.
 Import ListNotations.
-From BD.Loader Require Import Str Model Decode Proofs DecodeProofs LoadProofs Witness.
+From BD.Loader Require Import Str Model Decode Proofs DecodeProofs LoadProofs Witness SessionProofs.
 Open Scope string_scope.
 Open Scope list_scope.
 
@@ -79,3 +79,18 @@ Example C19_nonvacuous :
   effects (buildW oLoad (def_of example_tree2) [] []) =
     [EExec "echo a"; ESetenv "A" ""; ESetenv "B" "2"; ESetenv "1" "p1"; ESetenv "2" "X=2"; EExec "echo /tmp/l"].
 Proof. exact no_effects_example. Qed.
+
+(* Whole sessions: any sequence of non-executing requests (plain loads for listing / validation, displays for viewing)
+   of any definitions, each starting in the environment its predecessor left, executes nothing and ends in the
+   environment it started in - listing and viewing any number of times changes nothing. *)
+Theorem C19_session_no_effects :
+  forall (cron : string -> cronv) (sig_ok : string -> bool) (tokenize : string -> list (string * string))
+         (sh : string -> option string) (js : list job),
+  Forall job_noeval js -> forall e : envt, session cron sig_ok tokenize sh js e = (e, []).
+Proof. exact session_no_effects. Qed.
+Print Assumptions C19_session_no_effects.
+
+(* the premise is met by a session mixing the three non-executing entry points over the example tree *)
+Example C19_session_premise :
+  Forall job_noeval [(false, oYAML, example_tree2); (true, oYAML, example_tree2); (false, oMeta, example_tree2)].
+Proof. repeat constructor. Qed.
